@@ -560,6 +560,12 @@ func (h *httpServerHandler) handleGet(ctx context.Context, w http.ResponseWriter
 		return
 	}
 
+	// Listening streams are bound to a session; refuse them when session management is disabled.
+	if !h.enableSession || h.sessionManager == nil {
+		http.Error(w, "Session management disabled", http.StatusNotImplemented)
+		return
+	}
+
 	// Check if there's a session ID
 	sessionID := r.Header.Get(httputil.SessionIDHeader)
 	if sessionID == "" {
